@@ -1,10 +1,14 @@
 CAS2 = dict(file='include/machine_specific.h', replace_body={'compare_and_swap2': 'extern int verif_cas2_entry(volatile pointer_pair_t*, const pointer_pair_t*, const pointer_pair_t*); return verif_cas2_entry(location, original_value, new_value);'})
 WEAVE = [CAS2,
          dict(file='include/dist_fifo.h', parse='test/test_dist_fifo.c', fns=['dist_fifo_push', 'dist_fifo_trypop']),
+         dict(file='include/fiber_signal.h', parse='test/test_channel.c', fns=['fiber_multi_signal_wait', 'fiber_multi_signal_raise', 'fiber_multi_signal_raise_strict'], loops='loops.json'),
          dict(file='include/mpmc_lifo.h', parse='test/test_mpmc_lifo.c', fns=['mpmc_lifo_push', 'mpmc_lifo_pop'], loops='loops.json')]
 GROUPS = [
-    dict(name='lifo_pop', tu='lifo.c', harness='h_pop', mode='H', loop_contracts=True, functions=['mpmc_lifo_pop']),
-    dict(name='lifo_push', tu='lifo.c', harness='h_push', mode='H', loop_contracts=True, functions=['mpmc_lifo_push']),
+    dict(name='lifo_pop', tu='lifo.c', harness='h_pop', mode='H', loop_contracts=True, defs=['-DVERIF_LOOP_FLAG'], functions=['mpmc_lifo_pop']),
+    dict(name='lifo_push', tu='lifo.c', harness='h_push', mode='H', loop_contracts=True, defs=['-DVERIF_LOOP_FLAG'], functions=['mpmc_lifo_push']),
+    dict(name='msig_raise', tu='multisignal.c', harness='h_raise', mode='H', loop_contracts=True, defs=['-DVERIF_LOOP_FLAG'], functions=['fiber_multi_signal_raise']),
+    dict(name='msig_raise_strict', tu='multisignal.c', harness='h_raise_strict', mode='H', loop_contracts=True, defs=['-DVERIF_LOOP_FLAG'], functions=['fiber_multi_signal_raise_strict']),
+    dict(name='msig_wait', tu='multisignal.c', harness='h_wait', mode='H', loop_contracts=True, defs=['-DVERIF_LOOP_FLAG'], functions=['fiber_multi_signal_wait']),
     dict(name='distfifo_trypop', tu='distfifo.c', harness='h_trypop', mode='H', functions=['dist_fifo_trypop'], unwind=4, exact_unwind=True),
     dict(name='distfifo_push', tu='distfifo.c', harness='h_push', mode='H', functions=['dist_fifo_push'], unwind=4, exact_unwind=True),
 ]
